@@ -13,10 +13,10 @@ import (
 
 // Prov says where a value's memory may come from.
 type Prov struct {
-	Params  uint64                // bit i: reachable from parameter i
-	Globals map[*ssa.Global]bool  // reachable from these package-level variables
-	Fresh   bool                  // allocated during this call (here or in a callee)
-	Unknown bool                  // cannot tell
+	Params  uint64               // bit i: reachable from parameter i
+	Globals map[*ssa.Global]bool // reachable from these package-level variables
+	Fresh   bool                 // allocated during this call (here or in a callee)
+	Unknown bool                 // cannot tell
 }
 
 func (p *Prov) merge(q Prov) bool {
